@@ -653,7 +653,19 @@ def mapLvl (mp : Option (List (Int × Int))) (z : Int) : Int :=
   | none => z
   | some l => (l.lookup z).getD z
 
-def imageF (umap vmap : Option (List (Int × Int))) (qvars : List Nat) (forall_ : Bool) :
+/-- `find_or_add(i, -1, 1)` where `i` is not an `int` (a rename target that is an undeclared
+name): after the reordering request, `i < 0` is a TypeError -/
+def findOrAddNonInt : M Int := fun m =>
+  match (if m.ctx then requestReordering m else (.ok (), m)) with
+  | (.error e, m1) => (.error e, m1)
+  | (.ok _, m1) => (.error .type, m1)
+
+/-- `_image(u, v, umap, vmap, qvars, bdd, forall, cache)`.  A renaming is given by its
+`int -> int` items (`umap`, `vmap`) and by the `int` keys whose value is not an `int`
+(`ubad`, `vbad`: an undeclared name stays a `str` in the dictionary; looking such a key up ends
+in a TypeError). -/
+def imageF (umap vmap : Option (List (Int × Int))) (ubad vbad : List Int) (qvars : List Nat)
+    (forall_ : Bool) :
     Nat → Int → Int → HashMap (Int × Int) Int → M (Int × HashMap (Int × Int) Int)
   | 0, _, _, _ => fun m => (.error .fuel, m)
   | f+1, u, v, cache => fun m =>
@@ -668,6 +680,8 @@ def imageF (umap vmap : Option (List (Int × Int))) (qvars : List Nat) (forall_ 
       match m.tbl.levelOf? v with
       | none => (.error .key, m)
       | some jv =>
+        -- `iv = vmap.get(jv, jv)`; `min(iu, iv)` with a `str` is a TypeError
+        if vbad.contains (jv : Int) then (.error .type, m) else
         let iv : Int := mapLvl vmap jv
         let z : Int := min (iu : Int) iv
         match topCofactorI m.tbl u z with
@@ -676,16 +690,17 @@ def imageF (umap vmap : Option (List (Int × Int))) (qvars : List Nat) (forall_ 
         match topCofactorI m.tbl v ((jv : Int) + z - iv) with
         | .error e => (.error e, m)
         | .ok (v0, v1) =>
-          match imageF umap vmap qvars forall_ f u0 v0 cache m with
+          match imageF umap vmap ubad vbad qvars forall_ f u0 v0 cache m with
           | (.error e, m1) => (.error e, m1)
           | (.ok (p, cache), m1) =>
-            match imageF umap vmap qvars forall_ f u1 v1 cache m1 with
+            match imageF umap vmap ubad vbad qvars forall_ f u1 v1 cache m1 with
             | (.error e, m2) => (.error e, m2)
             | (.ok (q, cache), m2) =>
               match (if 0 ≤ z ∧ qvars.contains z.toNat = true then
                   (if forall_ then ite p q (-1) m2 else ite p 1 q m2)
                 else
-                  match findOrAdd (mapLvl umap z) (-1) 1 m2 with
+                  match (if ubad.contains z then findOrAddNonInt m2
+                      else findOrAdd (mapLvl umap z) (-1) 1 m2) with
                   | (.error e, m3) => (.error e, m3)
                   | (.ok g, m3) => ite g q p m3) with
               | (.error e, m3) => (.error e, m3)
@@ -702,37 +717,48 @@ def resolveRename (t : Tbl) (rn : List (Key × Key)) : List (Key × Key) :=
   let l := rn.map fun (k, v) => (res k, res v)
   (dedup (l.reverse.map (·.1))).reverse.map fun k => (k, (l.reverse.lookup k).getD k)
 
+/-- the `int -> int` items of the resolved renaming -/
 def intPairs (rn : List (Key × Key)) : List (Int × Int) :=
   rn.filterMap fun (k, v) => match k, v with
     | .lvl a, .lvl b => some (a, b)
     | _, _ => none
 
+/-- the `int` keys of the resolved renaming whose value is not an `int` (an undeclared name) -/
+def badKeys (rn : List (Key × Key)) : List Int :=
+  rn.filterMap fun (k, v) => match k, v with
+    | .lvl a, .name _ => some a
+    | _, _ => none
+
+/-- the `int` values of the resolved renaming (whatever the key) -/
+def renameValues (rn : List (Key × Key)) : List Int :=
+  rn.filterMap fun (_, v) => match v with
+    | .lvl b => some b
+    | .name _ => none
+
 /-- `_assert_no_overlap(d)`: some value is also a key -/
 def renameOverlap (rn : List (Key × Key)) : Bool :=
   rn.any fun (_, v) => rn.any (·.1 = v)
 
-/-- a key or value that is not an `int` (an undeclared name): arithmetic on it is a `TypeError` -/
-def renameNonLevel (rn : List (Key × Key)) : Bool :=
-  rn.any fun (k, v) => match k, v with
-    | .lvl _, .lvl _ => false
-    | _, _ => true
-
 /-- the levels of the operands' support that are rename targets and not quantified -/
-def imageBadTargets (rn : List (Int × Int)) (q s1 s2 : List Nat) : List Nat :=
-  (s1 ++ s2).filter fun l => !q.contains l && rn.any (·.2 = (l : Int))
+def imageBadTargets (vals : List Int) (q s1 s2 : List Nat) : List Nat :=
+  (s1 ++ s2).filter fun l => !q.contains l && vals.contains (l : Int)
 
-/-- `_all_adjacent(dvars, bdd)`, only its effects: it stops at the first pair that is not
-adjacent, whose warning message calls `var_at_level` on both levels -/
-def adjacentWarn (rn : List (Int × Int)) : M Unit := fun m =>
-  match rn.find? (fun (k, v) => (k - v).natAbs ≠ 1) with
-  | none => (.ok (), m)
-  | some (k, v) =>
-    match varAtLevel k m with
-    | (.error e, m1) => (.error e, m1)
-    | (.ok _, m1) =>
-      match varAtLevel v m1 with
-      | (.error e, m2) => (.error e, m2)
-      | (.ok _, m2) => (.ok (), m2)
+/-- `_all_adjacent(dvars, bdd)`, only its effects: the pairs are visited in dictionary order;
+`abs(i - j)` on a name is a TypeError; the visit stops at the first pair that is not adjacent,
+whose warning message calls `var_at_level` on both levels -/
+def adjacentWarn : List (Key × Key) → M Unit
+  | [] => fun m => (.ok (), m)
+  | (k, v) :: rest => fun m =>
+    match k, v with
+    | .lvl a, .lvl b =>
+      if (a - b).natAbs = 1 then adjacentWarn rest m else
+      match varAtLevel a m with
+      | (.error e, m1) => (.error e, m1)
+      | (.ok _, m1) =>
+        match varAtLevel b m1 with
+        | (.error e, m2) => (.error e, m2)
+        | (.ok _, m2) => (.ok (), m2)
+    | _, _ => (.error .type, m)
 
 /-- module-level `image(trans, source, rename, qvars, bdd, forall)` -/
 def image (trans source : Int) (rn : List (Key × Key)) (qvars : List Key) (forall_ : Bool) : M Int :=
@@ -743,9 +769,7 @@ def image (trans source : Int) (rn : List (Key × Key)) (qvars : List Key) (fora
     let rn := resolveRename m.tbl rn
     -- `_assert_no_overlap`
     if renameOverlap rn then (.error .assertion, m) else
-    -- `_all_adjacent`: arithmetic on a non-level key is a TypeError
-    if renameNonLevel rn then (.error .type, m) else
-    match adjacentWarn (intPairs rn) m with
+    match adjacentWarn rn m with
     | (.error e, m1) => (.error e, m1)
     | (.ok _, m1) =>
       match supportLevels m.tbl trans with
@@ -754,8 +778,9 @@ def image (trans source : Int) (rn : List (Key × Key)) (qvars : List Key) (fora
       match supportLevels m.tbl source with
       | .error e => (.error e, m1)
       | .ok s2 =>
-        if !(imageBadTargets (intPairs rn) q s1 s2).isEmpty then (.error .assertion, m1) else
-        match imageF (some (intPairs rn)) none q forall_ (2 * m.nvars + 4) trans source {} m1 with
+        if !(imageBadTargets (renameValues rn) q s1 s2).isEmpty then (.error .assertion, m1) else
+        match imageF (some (intPairs rn)) none (badKeys rn) [] q forall_ (2 * m.nvars + 4)
+            trans source {} m1 with
         | (.error e, m2) => (.error e, m2)
         | (.ok (r, _), m2) => (.ok r, m2)
 
@@ -776,8 +801,12 @@ def preimage (trans target : Int) (rn : List (Key × Key)) (qvars : List Key) (f
     match assertValidRename rn m with
     | (.error e, m1) => (.error e, m1)
     | (.ok _, m1) =>
-      match imageF none (some (intPairs rn)) q forall_ (2 * m.nvars + 4) trans target {} m1 with
-      | (.error e, m2) => (.error e, m2)
+      match imageF none (some (intPairs rn)) [] (badKeys rn) q forall_ (2 * m.nvars + 4)
+          trans target {} m1 with
+      -- every call of `_image` either moves down in `u` or in `v`, or calls itself with the same
+      -- pair (a renaming that sends a level below the bottom, or moves the terminal's level):
+      -- the fuel `2n + 4` runs out exactly when Python ends in RecursionError (a RuntimeError)
+      | (.error e, m2) => (.error (if e = .fuel then .runtime else e), m2)
       | (.ok (r, _), m2) => (.ok r, m2)
 
 /-! ### to_expr -/
